@@ -62,11 +62,11 @@ def cfg_with_devs(wd, cfg, devs, tag=""):
 
 # ------------------------------------------------------------------ abstract scenarios
 
-def tx(kind, ins, outs, refs=()):
-    return {"kind": kind, "ins": list(ins), "outs": list(outs), "refs": list(refs)}
+def tx(kind, ins, outs, refs=(), w=1):
+    return {"kind": kind, "ins": list(ins), "outs": list(outs), "refs": list(refs), "w": w}
 
 
-def scenario(name, root, nodes, txs, sets=(), rsets=(), look=(), txsetc=(), regime="both", side=()):
+def scenario(name, root, nodes, txs, sets=(), rsets=(), look=(), txsetc=(), regime="both", side=(), maxpool=99):
     """nodes: [(parent, [body tx ids])] for nodes 2.. (node 1 is the root: the tip of a linear
     warm-up prefix in the materialisation); root: leaves unspent at the root."""
     par = [0] + [p for p, _ in nodes]
@@ -76,7 +76,7 @@ def scenario(name, root, nodes, txs, sets=(), rsets=(), look=(), txsetc=(), regi
         h.append(h[p - 1] + 1)
     cr = [sorted(root)] + [sorted({o for t in b for o in txs[t - 1]["outs"]}) for _, b in nodes]
     sp = [[]] + [sorted({i for t in b for i in txs[t - 1]["ins"]}) for _, b in nodes]
-    return {"name": name, "regime": regime, "v1ok": regime == "both", "n": len(par), "parent": par, "height": h, "body": body, "creates": cr, "spends": sp,
+    return {"name": name, "regime": regime, "v1ok": regime == "both", "maxpool": maxpool, "n": len(par), "parent": par, "height": h, "body": body, "creates": cr, "spends": sp,
             "ntx": len(txs), "tx": txs, "sets": list(sets), "rsets": [list(r) for r in rsets], "look": list(look),
             "txsetc": list(txsetc), "side": list(side)}
 
@@ -160,10 +160,22 @@ def pool_scenarios(tier):
 
 
 def full_scenarios(tier):
-    """C05, eviction: no blocks, MaxPool = 3"""
+    """C05, eviction: no blocks; the pool is full when the POOLED transactions weigh >= 3.
+    a: five transactions of weight 1 (the pool fills one by one);
+    b: a small pool and HEAVY sets -- [H, K]: H (weight 3) is fine, K double-spends the pooled A, so
+       the set is rejected and must leave NO weight behind (seed C05-b); [H] alone is accepted and
+       fills the pool; [G] (weight 2) is accepted and leaves it just below the limit."""
     T = [tx("v2", [1], [5]), tx("v2", [5], [6]), tx("v2", [2], [7]), tx("v1", [3], [8]), tx("v2", [4], [9])]
-    sets = [cset("v2", [1, 2]), cset("v2", [3]), cset("v1", [4]), cset("v2", [5]), cset("v2", [1]), cset("v2", [2])]
-    return [scenario("pool-full", [1, 2, 3, 4], [], T, sets=sets)]
+    sets = [cset("v2", [1, 2]), cset("v2", [3]), cset("v1", [4]), cset("v2", [5]), cset("v1", [4]), cset("v2", [1]), cset("v2", [2])]
+    a = scenario("pool-full", [1, 2, 3, 4], [], T, sets=sets, maxpool=3)
+    Tb = [tx("v2", [1], [5]),            # 1 A  small, pooled first
+          tx("v2", [2], [6], w=3),       # 2 H  heavy
+          tx("v2", [1], [7]),            # 3 K  conflicts with A
+          tx("v2", [3], [8], w=2),       # 4 G  medium
+          tx("v1", [4], [9])]            # 5 D  small v1
+    setsb = [cset("v2", [1]), cset("v1", [5]), cset("v2", [2, 3]), cset("v2", [2]), cset("v2", [4]), cset("v2", [4, 3])]
+    b = scenario("pool-heavy-sets", [1, 2, 3, 4], [], Tb, sets=setsb, maxpool=3)
+    return [a, b]
 
 
 def rebase_scenarios(tier):
@@ -356,7 +368,8 @@ def validate_all(wd, prop, tag, shards, devs, verdict, accept=None):
 def replay_paths(wd, binary, scens, paths, tag, verdict, shards=8, stub="", accept=None, timeout=1500):
     inp = os.path.join(wd, "replay_in_%s.json" % tag)
     json.dump({"scens": scens, "paths": paths, "shards": shards, "tag": tag, "stub": stub}, open(inp, "w"))
-    res = vlib.go_run(binary, "TestReplay", wd, env={"VERIF_IN": inp}, timeout=timeout, tag="replay_" + tag)
+    res = vlib.go_run(binary, "TestReplay", wd, env={"VERIF_IN": inp, "VERIF_DEV_PARTIAL": 1 if deviations().get("DevPartialAdd") else 0},
+                      timeout=timeout, tag="replay_" + tag)
     for m in res["mismatches"]:
         if m["sig"].startswith("harness:"):
             raise vlib.Infra("harness trouble in replay %s: %s -- %s" % (tag, m["sig"], m["desc"][:600]))
@@ -378,7 +391,8 @@ def leg_r(wd, binary, prop, cfg, scens, scname, rng, verdict, devs, max_paths=No
 
 
 def leg_t(wd, binary, prop, mode, verdict, devs, histories, steps, shards=8, tag="drv", accept=None, extra_env=None, timeout=2400):
-    env = {"VERIF_MODE": mode, "VERIF_HISTORIES": histories, "VERIF_SHARDS": shards, "VERIF_STEPS": steps, "VERIF_TAG": tag}
+    env = {"VERIF_MODE": mode, "VERIF_HISTORIES": histories, "VERIF_SHARDS": shards, "VERIF_STEPS": steps, "VERIF_TAG": tag,
+           "VERIF_DEV_PARTIAL": 1 if devs.get("DevPartialAdd") else 0}
     if extra_env:
         env.update(extra_env)
     res = vlib.go_run(binary, "TestDriver", wd, env=env, timeout=timeout, tag="driver_" + tag)
